@@ -13,6 +13,7 @@ from hypothesis import strategies as st
 
 from tracklib.core.obs import Obs
 from tracklib.core.obs_coords import ENUCoords
+from tracklib.core.obs_time import ObsTime
 from tracklib.core.track import Track
 
 from vt import gen
@@ -32,6 +33,16 @@ ASSUMPTIONS = [
     "from Obs objects that both hold, only positions and times of the other track are judged. One edit per case; a result without a "
     "table and an empty track (no feature can be created, documented) are not edited",
     "tr[i:j] is taken as a second spelling of index extraction",
+    "time zone: the timestamps of a track may carry a whole-hour zone label -12..+14 (ObsTime.zone), given to them by their constructor, "
+    "by track.setTimeZone(z) or by track.convertToTimeZone(z) BEFORE the judged operation (these two are pre-history: a case whose track "
+    "does not show the modelled fields and labels afterwards is counted as undefined). The record of an observation in the list model is "
+    "(x, y, z, calendar fields as epoch ms, zone label, feature values): 'its own timestamp' includes the label, in results and in sources. "
+    "Time order and span membership are those of the calendar fields (the library's ObsTime order, C03); span bounds and inserted "
+    "observations carry the label of the track, so that no reading of 'time' depends on comparing different labels; the two operands "
+    "of + may be in different zones (each observation keeps its own label)",
+    "augmented spellings: a += b and a %= n (the only judged operators Python gives an augmented form; Track defines no in-place "
+    "variant, so they mean a = a + b / a = a % n) are judged like + and %, with the track a was bound to before held through a second "
+    "reference and judged as the unmodified source",
 ]
 
 QMS = 250
@@ -61,22 +72,61 @@ def _ms(t0i, q):
     return T0S[t0i % len(T0S)] + QMS * q
 
 
-def _mk_obs(u, ms):
-    return Obs(ENUCoords(float(u), _y(u), _z(u)), gen.obstime_of_ms(ms))
+# --- the time zone of a track --------------------------------------------------------------------
+# A timestamp carries a whole-hour time-zone label (ObsTime.zone; 0 unless set).  On this code base the calendar fields
+# are the instant (comparisons / toAbsTime read the fields only) and the label travels with the timestamp; a track is
+# "in zone z" when its timestamps carry z: built that way, tagged with setTimeZone(z), or moved with convertToTimeZone(z).
+ZONE_LO, ZONE_HI = -12, 14
+NZ = (2, -5, 1, 12, -11, 14, -1)
+HOWS = ("ctor", "setTimeZone", "convertToTimeZone")
 
 
-def _rec(u, ms, names):
-    return (float(u), _y(u), _z(u), ms, tuple(_feat(c, u) for c in range(len(names))))
+class _Undef(Exception):
+    """the pre-history of a case did not leave the tracks in the modelled state (not this property's subject)"""
 
 
-def _build(t0i, qs, names=(), uid0=0, order=None, recreate=()):
-    """-> (track, [Obs], [record]) ; record = (x, y, z, t_ms, features), features in the order of `names`.
+def _zone_ok(z):
+    return isinstance(z, int) and not isinstance(z, bool) and ZONE_LO <= z <= ZONE_HI
+
+
+def _zone_of(trk):
+    """(label, how it gets onto the track) of a generated track; old cases have none"""
+    z, how = trk.get("z", 0), trk.get("zh", 0)
+    if not _zone_ok(z) or isinstance(how, bool) or not isinstance(how, int):
+        raise _Undef()
+    return z, how % len(HOWS)
+
+
+def _ot(ms, zone=0):
+    """ObsTime built field-wise, carrying the zone label"""
+    if not zone:
+        return gen.obstime_of_ms(ms)
+    return ObsTime(*gen.fields_of_ms(ms), zone=zone)
+
+
+def _mk_obs(u, ms, zone=0):
+    return Obs(ENUCoords(float(u), _y(u), _z(u)), _ot(ms, zone))
+
+
+def _rec(u, ms, names, zone=0):
+    return (float(u), _y(u), _z(u), ms, zone, tuple(_feat(c, u) for c in range(len(names))))
+
+
+def _build(t0i, qs, names=(), uid0=0, order=None, recreate=(), zone=0, how=0):
+    """-> (track, [Obs], [record]) ; record = (x, y, z, t_ms, zone label, features), features in the order of `names`.
     The feature columns are created in the order `order` (a permutation of the column numbers; default 0, 1, ..);
-    then every column of `recreate` is removed and created again with the same values (it moves to the last slot)."""
-    obs = [_mk_obs(uid0 + i, _ms(t0i, q)) for i, q in enumerate(qs)]
+    then every column of `recreate` is removed and created again with the same values (it moves to the last slot).
+    zone != 0: the timestamps carry that label - from their constructor (how 0), from track.setTimeZone(zone) (how 1), or the
+    track is built `zone` hours earlier with label 0 and moved with track.convertToTimeZone(zone) (how 2)."""
+    if zone and how == 2:
+        obs = [_mk_obs(uid0 + i, _ms(t0i, q) - 3600000 * zone) for i, q in enumerate(qs)]
+    else:
+        obs = [_mk_obs(uid0 + i, _ms(t0i, q), zone if how == 0 else 0) for i, q in enumerate(qs)]
     tr = Track([], 1)
     for o in obs:
         tr.addObs(o)
+    if zone and how == 2:
+        tr.convertToTimeZone(zone)
     if obs:
         for c in (order if order is not None else range(len(names))):
             tr.createAnalyticalFeature(names[c], [_feat(c, uid0 + i) for i in range(len(obs))])
@@ -87,7 +137,14 @@ def _build(t0i, qs, names=(), uid0=0, order=None, recreate=()):
             else:                                                    # the same through the [] spelling
                 tr[names[c]] = "#DELETE"
                 tr[names[c]] = [_feat(c, uid0 + i) for i in range(len(obs))]
-    recs = [_rec(uid0 + i, _ms(t0i, q), names if obs else ()) for i, q in enumerate(qs)]
+    if zone and how == 1:
+        tr.setTimeZone(zone)
+    recs = [_rec(uid0 + i, _ms(t0i, q), names if obs else (), zone) for i, q in enumerate(qs)]
+    if zone and how != 0:
+        # setTimeZone / convertToTimeZone are pre-history, not judged: the track must show the modelled state
+        if [(gen.ms_of_obstime(o.timestamp), getattr(o.timestamp, "zone", None)) for o in tr.getObsList()] != [(r[3], r[4]) for r in recs] \
+                or [id(o) for o in tr.getObsList()] != [id(o) for o in obs]:
+            raise _Undef()
     return tr, obs, recs
 
 
@@ -108,8 +165,24 @@ def _plan(trk, prefix="f"):
 
 def _build_trk(trk, prefix="f", uid0=0):
     names, fo, rc, listed = _plan(trk, prefix)
-    tr, obs, recs = _build(trk["t0"], trk["q"], names, uid0=uid0, order=fo, recreate=rc)
+    z, how = _zone_of(trk)
+    tr, obs, recs = _build(trk["t0"], trk["q"], names, uid0=uid0, order=fo, recreate=rc, zone=z, how=how)
     return tr, obs, recs, names, listed
+
+
+def _zcls(trk):
+    z, how = _zone_of(trk)
+    return "zone-0" if not (z and trk["q"]) else "zone-nonzero:" + HOWS[how]
+
+
+def _guard(body):
+    def run(case):
+        try:
+            return body(case)
+        except _Undef:
+            return {"undef": True, "cls": ["prehistory-not-as-modelled"]}
+    run.__name__ = body.__name__
+    return run
 
 
 def _names(nf, prefix="f"):
@@ -127,19 +200,21 @@ def _read(tr, names):
         o = tr.getObs(i)
         ids.append(id(o))
         recs.append((o.position.getX(), o.position.getY(), o.position.getZ(), gen.ms_of_obstime(o.timestamp),
-                     tuple(tr.getObsAnalyticalFeature(nm, i) for nm in names)))
+                     getattr(o.timestamp, "zone", None), tuple(tr.getObsAnalyticalFeature(nm, i) for nm in names)))
     return ids, recs
 
 
 def _short(recs):
+    if any(r[4] for r in recs):
+        return [(int(r[0]), r[3] % 1000000, r[4]) for r in recs][:40]
     return [(int(r[0]), r[3] % 1000000) for r in recs][:40]
 
 
 def _expect(tr, want, names, key, what, features=True):
     """the track holds exactly the records `want`, in that order, and lists the feature names"""
     _, got = _read(tr, ())
-    if [g[:4] for g in got] != [w[:4] for w in want]:
-        raise Violation(key, "%s: got (x, t) %s, list model says %s" % (what, _short(got), _short(want)))
+    if [g[:5] for g in got] != [w[:5] for w in want]:
+        raise Violation(key, "%s: got (x, t[, zone]) %s, list model says %s" % (what, _short(got), _short(want)))
     if not features:
         return
     have = tr.getListAnalyticalFeatures()
@@ -147,20 +222,20 @@ def _expect(tr, want, names, key, what, features=True):
         raise Violation(key + "-features", "%s: feature names %s, source has %s" % (what, have, list(names)))
     _, got = _read(tr, names)
     for i, (g, w) in enumerate(zip(got, want)):
-        if g[4] != w[4]:
+        if g[5] != w[5]:
             raise Violation(key + "-features", "%s: obs %d (x=%s) reads features %s, its own are %s" % (
-                what, i, g[0], g[4], w[4]))
+                what, i, g[0], g[5], w[5]))
 
 
 def _unchanged(tr, ids, recs, names, key, what):
     """source track still holds the same Obs objects with the same values"""
     ids2, recs2 = _read(tr, ())
-    if ids2 != ids or [r[:4] for r in recs2] != [r[:4] for r in recs]:
+    if ids2 != ids or [r[:5] for r in recs2] != [r[:5] for r in recs]:
         raise Violation(key + "-source-modified", "%s changed its source: %s -> %s" % (what, _short(recs), _short(recs2)))
     if sorted(tr.getListAnalyticalFeatures()) != sorted(names):
         raise Violation(key + "-source-modified", "%s changed the source's feature names" % what)
     _, recs2 = _read(tr, names)
-    if [r[4] for r in recs2] != [r[4] for r in recs]:
+    if [r[5] for r in recs2] != [r[5] for r in recs]:
         raise Violation(key + "-source-modified", "%s changed the source's feature values" % what)
 
 
@@ -185,6 +260,13 @@ def _order(draw, nf):
     return list(fo), list(rc)
 
 
+def _zone(draw):
+    """time zone of a track: (label, how it gets there); label 0 (as ever) in about 40% of the tracks"""
+    mode = draw(st.sampled_from([0, 0, 1, 1, 2]))
+    z = 0 if mode == 0 else draw(st.sampled_from(NZ)) if mode == 1 else draw(st.integers(ZONE_LO, ZONE_HI))
+    return z, draw(st.integers(0, len(HOWS) - 1))
+
+
 @st.composite
 def _track(draw, min_n=0, max_nf=3):
     n = max(min_n, draw(SIZES))
@@ -200,7 +282,8 @@ def _track(draw, min_n=0, max_nf=3):
         qs.sort(reverse=True)
     nf = draw(st.integers(0, max_nf)) if n else 0
     fo, rc = _order(draw, nf)
-    return {"t0": draw(st.integers(0, len(T0S) - 1)), "q": qs, "nf": nf, "fo": fo, "rc": rc}
+    z, zh = _zone(draw) if n else (0, 0)
+    return {"t0": draw(st.integers(0, len(T0S) - 1)), "q": qs, "nf": nf, "fo": fo, "rc": rc, "z": z, "zh": zh}
 
 
 def _instant(draw, qs):
@@ -222,6 +305,7 @@ def strat_sort():
     return _track()
 
 
+@_guard
 def body_sort(case):
     tr, obs, recs, names, listed = _build_trk(case)
     own = {id(o): r for o, r in zip(obs, recs)}
@@ -239,7 +323,7 @@ def body_sort(case):
         raise Violation("sort-detaches-values", "feature names changed by sort")
     q = case["q"]
     n = len(q)
-    cls = ["dup" if _has_dup(q) else "distinct"]
+    cls = ["dup" if _has_dup(q) else "distinct", _zcls(case)]
     if listed != sorted(listed):
         cls.append("features-in-other-order")
     if q == sorted(q):
@@ -256,21 +340,22 @@ def body_sort(case):
 
 
 # --- (ii) insertion without an index: exhaustive slots -------------------------------------------
-def _insert_and_check(t0i, qs, slot, via, stash):
-    """one chronological insertion into the sorted track qs; stash caches the built observations"""
-    key = (t0i, tuple(qs))
+def _insert_and_check(t0i, qs, slot, via, stash, zone=0):
+    """one chronological insertion into the sorted track qs (all timestamps carry the label `zone`); stash caches the
+    built observations"""
+    key = (t0i, tuple(qs), zone)
     if stash.get("key") != key:
         stash["key"] = key
-        stash["obs"] = [_mk_obs(i, _ms(t0i, q)) for i, q in enumerate(qs)]
+        stash["obs"] = [_mk_obs(i, _ms(t0i, q), zone) for i, q in enumerate(qs)]
     obs = stash["obs"]
     tr = Track(list(obs), 1)
-    new = _mk_obs(len(qs), _ms(t0i, slot))
+    new = _mk_obs(len(qs), _ms(t0i, slot), zone)
     if via == 0:
         tr.insertObsInChronoOrder(new)
     else:
         tr.insertObs(new)
     lst = tr.getObsList()
-    what = "insert q=%d into q=%s" % (slot, list(qs))
+    what = "insert q=%d into q=%s%s" % (slot, list(qs), " (zone %+d)" % zone if zone else "")
     if len(lst) != len(obs) + 1 or tr.size() != len(obs) + 1:
         raise Violation("insert-changes-population", "%s: size %d -> %d" % (what, len(obs), tr.size()))
     ids = [id(o) for o in lst]
@@ -280,8 +365,9 @@ def _insert_and_check(t0i, qs, slot, via, stash):
     if any(ms[i] > ms[i + 1] for i in range(len(ms) - 1)):
         raise Violation("insert-breaks-order", "%s: new obs at index %d, q after = %s" % (
             what, ids.index(id(new)), [(m - _ms(t0i, 0)) // QMS for m in ms]))
-    for i, o in enumerate(obs):
-        if o.position.getX() != float(i) or gen.ms_of_obstime(o.timestamp) != _ms(t0i, qs[i]):
+    for i, o in enumerate(obs + [new]):
+        if o.position.getX() != float(i) or gen.ms_of_obstime(o.timestamp) != _ms(t0i, (list(qs) + [slot])[i]) \
+                or getattr(o.timestamp, "zone", None) != zone:
             raise Violation("insert-changes-values", "%s: obs %d altered" % (what, i))
 
 
@@ -321,7 +407,7 @@ def _families(n, tier):
 def enum_insert(tier):
     for n in range(0, 34):
         for k, qs in enumerate(_families(n, tier)):
-            yield {"t0": (n + k) % len(T0S), "q": qs}
+            yield {"t0": (n + k) % len(T0S), "q": qs, "z": NZ[(n + k) % len(NZ)] if k % 2 else 0}
 
 
 def body_insert_slots(case):
@@ -329,14 +415,21 @@ def body_insert_slots(case):
     if qs != sorted(qs):
         return {"undef": True}
     lo, hi = (qs[0], qs[-1]) if qs else (0, 0)
+    z = case.get("z", 0)
+    if not _zone_ok(z):
+        return {"undef": True}
     stash = {}
     slots = list(range(lo - 2, hi + 3))
     for s in slots:
         _insert_and_check(case["t0"], qs, s, s & 1 if qs else 0, stash)
         if s in (lo, hi, lo - 1, hi + 1):
             _insert_and_check(case["t0"], qs, s, 1 - (s & 1), stash)
+    if z:                                     # the same track in time zone z: the end slots, the middle, every 5th slot
+        for k, s in enumerate(slots):
+            if s in (lo - 1, lo, (lo + hi) // 2, hi, hi + 1) or k % 5 == 0:
+                _insert_and_check(case["t0"], qs, s, k & 1, stash, z)
     n = len(qs)
-    cls = ["slots-%s" % ("<=8" if len(slots) <= 8 else "<=32" if len(slots) <= 32 else ">32")]
+    cls = ["slots-%s" % ("<=8" if len(slots) <= 8 else "<=32" if len(slots) <= 32 else ">32"), "zone-nonzero" if z else "zone-0"]
     if _has_dup(qs):
         cls.append("dup")
     if n in POW2:
@@ -349,6 +442,7 @@ def body_insert_slots(case):
 # --- (iii) the selecting operators ---------------------------------------------------------------
 OPS = ["extract", "slice", "span", "span_track", "add", "add", "mod_int", "mod_pat", "gt", "lt", "remove", "remove_one"]
 DERIVING = ("extract", "slice", "span", "span_track", "add", "mod_int", "mod_pat", "gt", "lt")
+AUGMENTED = ("add", "mod_int", "mod_pat")   # operators with an augmented spelling (+=, %=); > and < have none in Python
 NEW = "znew"                      # name of the feature a follow-up edit creates
 
 
@@ -369,6 +463,8 @@ def strat_ops_(draw):
         case["ref"] = [_instant(draw, trk["q"]) for _ in range(m)]
     elif op == "add":
         other = draw(_track())
+        if draw(st.sampled_from([True, True, False])) and len(other["q"]) and n:
+            other["z"] = trk["z"]                                # mostly both operands in the same time zone
         kind = draw(st.sampled_from(["same", "same", "other-order", "other-order", "other-count", "other-names"]))
         if len(other["q"]) and n:
             if kind == "same":                                   # same names, created in the same order
@@ -405,6 +501,8 @@ def strat_ops_(draw):
         case["idx"] = idx
     elif op == "remove_one":
         case["i"] = _index(draw, n)
+    if op in AUGMENTED:
+        case["aug"] = draw(st.booleans())                        # written as  a += b / a %= n  with another reference to a kept
     if op in DERIVING:
         # follow-up edit of the feature table of one of the tracks after the judged derivation; then all are judged again
         kind = draw(st.sampled_from(["none", "none", "create", "create", "create+assign", "remove"]))
@@ -424,8 +522,8 @@ def _expect_own(res, want, owners, key, what):
     lists - reading a name returns, for every observation, the value that observation has under that name in the
     track it comes from.  owners[i] = feature names (in the order of the record's values) of the i-th observation."""
     _, got = _read(res, ())
-    if [g[:4] for g in got] != [w[:4] for w in want]:
-        raise Violation(key, "%s: got (x, t) %s, list model says %s" % (what, _short(got), _short(want)))
+    if [g[:5] for g in got] != [w[:5] for w in want]:
+        raise Violation(key, "%s: got (x, t[, zone]) %s, list model says %s" % (what, _short(got), _short(want)))
     have = res.getListAnalyticalFeatures()
     for nm in have:
         for i, (w, ns) in enumerate(zip(want, owners)):
@@ -437,9 +535,9 @@ def _expect_own(res, want, owners, key, what):
             except (IndexError, KeyError) as e:
                 raise Violation(key + "-features", "%s: the result lists feature %r, reading it for obs %d (x=%s) raises %s" % (
                     what, nm, i, w[0], type(e).__name__))
-            if v != w[4][list(ns).index(nm)]:
+            if v != w[5][list(ns).index(nm)]:
                 raise Violation(key + "-features", "%s: obs %d (x=%s) reads %r = %r, its own value is %r" % (
-                    what, i, w[0], nm, v, w[4][list(ns).index(nm)]))
+                    what, i, w[0], nm, v, w[5][list(ns).index(nm)]))
     return have
 
 
@@ -449,13 +547,18 @@ def _edit_ok(ed):
             and all(isinstance(ed.get(k), int) and not isinstance(ed.get(k), bool) and ed.get(k) >= 0 for k in ("via", "col")))
 
 
+@_guard
 def body_ops(case):
     trk, op = case["trk"], case["op"]
     t0i, qs = trk["t0"], trk["q"]
     tr, obs, L, names, listed = _build_trk(trk)
+    zone = _zone_of(trk)[0] if qs else 0
     ids = [id(o) for o in obs]
     n = len(L)
-    cls = [op]
+    cls = [op, _zcls(trk)]
+    aug = bool(case.get("aug")) and op in AUGMENTED
+    if aug:
+        cls.append("augmented-form")
     hit = False                       # argument hits an end / equality / empty-result case
     res = want = key = what = None    # the derived track, its designated records, root-cause key, description
     owners = None                     # + with different tables: feature names of the track each observation comes from
@@ -476,11 +579,11 @@ def body_ops(case):
     elif op in ("span", "span_track"):
         if op == "span":
             a, b = case["a"], case["b"]
-            res = tr.extractSpanTime(gen.obstime_of_ms(_ms(t0i, a)), gen.obstime_of_ms(_ms(t0i, b)))
+            res = tr.extractSpanTime(_ot(_ms(t0i, a), zone), _ot(_ms(t0i, b), zone))      # bounds in the zone of the track
             if a > b:
                 cls.append("reversed-bounds")
         else:
-            ref, _, _ = _build(t0i, case["ref"], (), uid0=1000)
+            ref, _, _ = _build(t0i, case["ref"], (), uid0=1000, zone=zone)
             a, b = case["ref"][0], case["ref"][-1]
             res = tr.extractSpanTime(ref)
         lo, hi = _ms(t0i, min(a, b)), _ms(t0i, max(a, b))
@@ -494,9 +597,16 @@ def body_ops(case):
     elif op == "add":
         tr2, obs2, L2, names2, listed2 = _build_trk(case["other"], case.get("prefix2", "f"), uid0=100)
         right = (tr2, [id(x) for x in obs2], L2, names2)
-        res = tr + tr2
+        if aug:
+            acc = tr                          # `tr` stays the other reference to the left operand
+            acc += tr2
+            res = acc
+        else:
+            res = tr + tr2
         want = L + L2
-        key, what = "add-wrong", "+ of %d obs (table %s) and %d obs (table %s)" % (n, listed, len(L2), listed2)
+        key, what = "add-wrong", "%s of %d obs (table %s) and %d obs (table %s)" % ("+=" if aug else "+", n, listed, len(L2), listed2)
+        if L and L2 and L[0][4] != L2[0][4]:
+            cls.append("operands-in-different-zones")
         if listed == listed2:             # same names at the same columns (an empty track has no table)
             cls.append("same-table")
         else:
@@ -509,16 +619,26 @@ def body_ops(case):
         k = case["n"]
         if k < 1:
             return {"undef": True}
-        res = tr % k
-        want, key, what = L[::k], "mod-int-wrong", "%% %d of %d obs" % (k, n)
+        if aug:
+            acc = tr
+            acc %= k
+            res = acc
+        else:
+            res = tr % k
+        want, key, what = L[::k], "mod-int-wrong", "%s %d of %d obs" % ("%=" if aug else "%", k, n)
         hit = k == 1 or k >= n or (n - 1) % k == 0
     elif op == "mod_pat":
         pat = [bool(b) for b in case["pat"]]
         if not pat:
             return {"undef": True}
-        res = tr % list(pat)
+        if aug:
+            acc = tr
+            acc %= list(pat)
+            res = acc
+        else:
+            res = tr % list(pat)
         want = [r for i, r in enumerate(L) if pat[i % len(pat)]]
-        key, what = "mod-pattern-wrong", "%% %s of %d obs" % (pat, n)
+        key, what = "mod-pattern-wrong", "%s %s of %d obs" % ("%=" if aug else "%", pat, n)
         hit = not any(pat) or all(pat) or len(pat) > n
         cls.append("pattern-len-%d" % len(pat))
     elif op == "gt":
@@ -572,7 +692,7 @@ def body_ops(case):
                 _unchanged(right[0], right[1], right[2], right[3], k, w + " (right operand)")
 
         judge_res(key, what)
-        judge_sources(op, op)
+        judge_sources(op, what if aug else op)
 
         # follow-up edit: the feature table of the derived track / of a source is edited AFTER the derivation,
         # then the edited track and the other ones are judged again (a derived track must not share state
@@ -597,7 +717,7 @@ def body_ops(case):
                         E[Enames[c]] = "#DELETE"
                     else:
                         E.removeAnalyticalFeature(Enames[c])
-                    Ewant2 = [r[:4] + (r[4][:c] + r[4][c + 1:],) for r in Ewant]
+                    Ewant2 = [r[:5] + (r[5][:c] + r[5][c + 1:],) for r in Ewant]
                     Enames2 = Enames[:c] + Enames[c + 1:]
                     done = True
             elif not Ewant:
@@ -613,7 +733,7 @@ def body_ops(case):
                     E.setObsAnalyticalFeature(NEW, 0, -1.5)
                     vals[-1] = -2.5
                     E[len(vals) - 1, NEW] = -2.5
-                Ewant2 = [r[:4] + (r[4] + (v,),) for r, v in zip(Ewant, vals)]
+                Ewant2 = [r[:5] + (r[5] + (v,),) for r, v in zip(Ewant, vals)]
                 Enames2 = Enames + (NEW,)
                 done = True
             if done:
@@ -690,7 +810,7 @@ def strat_hist_(draw):
         else:
             ops.append(["sort"])
             cur.sort()
-    return {"t0": t0i, "init": init, "ops": ops}
+    return {"t0": t0i, "init": init, "ops": ops, "z": _zone(draw)[0]}
 
 
 def strat_hist():
@@ -699,18 +819,21 @@ def strat_hist():
 
 def body_hist(case):
     t0i = case["t0"]
-    tr, obs, _ = _build(t0i, case["init"])
-    model = [(id(o), float(i), _ms(t0i, q)) for i, (o, q) in enumerate(zip(obs, case["init"]))]   # (id, x, t_ms)
+    z = case.get("z", 0)                  # every observation of the history carries this time-zone label
+    if not _zone_ok(z):
+        return {"undef": True}
+    tr, obs, _ = _build(t0i, case["init"], zone=z)
+    model = [(id(o), float(i), _ms(t0i, q), z) for i, (o, q) in enumerate(zip(obs, case["init"]))]   # (id, x, t_ms, zone)
     keep = list(obs)                      # keeps every Obs alive so that ids stay unique
     uid = len(obs)
-    cls = set()
+    cls = set(["zone-nonzero" if z else "zone-0"])
     nt = False
 
     def view():
         lst = tr.getObsList()
         if tr.size() != len(lst):
             raise Violation("size-inconsistent", "size() %d, list %d" % (tr.size(), len(lst)))
-        return [(id(o), o.position.getX(), gen.ms_of_obstime(o.timestamp)) for o in lst]
+        return [(id(o), o.position.getX(), gen.ms_of_obstime(o.timestamp), getattr(o.timestamp, "zone", None)) for o in lst]
 
     def is_sorted(m):
         return all(m[i][2] <= m[i + 1][2] for i in range(len(m) - 1))
@@ -722,8 +845,8 @@ def body_hist(case):
         kind = op[0]
         if kind in ("ins", "add", "insat"):
             q = op[2] if kind == "insat" else op[1]
-            new = _mk_obs(uid, _ms(t0i, q))
-            rec = (id(new), float(uid), _ms(t0i, q))
+            new = _mk_obs(uid, _ms(t0i, q), z)
+            rec = (id(new), float(uid), _ms(t0i, q), z)
             uid += 1
             keep.append(new)
         if kind == "ins":
@@ -797,6 +920,10 @@ RULE = ("sort / ops / histories: Hypothesis; sizes 0..33 weighted to 0,1,2,2^k-1
         "ops: + gets a right operand with the same table / the same names in another creation order / another number / other names; "
         "every deriving operation is followed in half of the cases by an edit (create, create + assign, remove; method or [] spelling) "
         "on the result, the source or the right operand, after which all tracks are judged again. "
+        "Time zone: 60% of the generated tracks / histories carry a non-zero label (one of 2,-5,1,12,-11,14,-1 or any of -12..14) put on "
+        "by constructor / setTimeZone / convertToTimeZone (a third each); + gets a right operand in the same zone (2/3) or its own; "
+        "+ and % are written in augmented form (+=, %=) in half of their cases. "
+        "insert_slots: every second enumerated track is repeated with a non-zero label at its end slots, the middle and every 5th slot. "
         "insert_slots: enumerated completely - for every size 0..33 the sorted tracks made of runs of r equal stamps (all r), of one block of "
         "m equal stamps at every position, of one wide gap at every position, and (size <= 10 quick / 14 thorough) every pattern of ties; "
         "each with every instant from 2 quarter-steps before the first to 2 after the last stamp (before / between / equal / after), "
